@@ -312,6 +312,12 @@ ChanR(s, e) == [ch |-> e.ch]
 (* on that chain.  Everything this module stores is part of genesis, so the  *)
 (* abstract state is unchanged.                                             *)
 ExportImport_G(s, e) == [ valid |-> TRUE ]
+(* InitChain hands a genesis file to InitGenesis directly (ValidateGenesis is a separate, optional CLI step): a genesis whose  *)
+(* bridge configuration is invalid - here the exported genesis with every finalization period set to e.period - must be    *)
+(* refused there, or bridges without a challenge window exist from the first block.                                         *)
+InitRaw_G(s, e) == [ periodPositive |-> DOMAIN s.cfg = {} \/ e.period > 0 ]
+InitRaw_E(s, e) == s        \* the probe chain is thrown away
+InitRaw_R(s, e) == [accepted |-> TRUE]
 ExportImport_E(s, e) == s
 ExportImport_R(s, e) == [same |-> TRUE]
 
@@ -374,6 +380,7 @@ Guards(s, e) ==
     [] e.type = "ChannelSend"             -> ChannelSend_G(s, e)
     [] e.type = "ChannelTake"             -> ChannelTake_G(s, e)
     [] e.type = "ExportImport"            -> ExportImport_G(s, e)
+    [] e.type = "InitRaw"                 -> InitRaw_G(s, e)
 
 Effect(s, e) ==
   CASE e.type = "Query"                   -> s
@@ -395,6 +402,7 @@ Effect(s, e) ==
     [] e.type = "ChannelSend"             -> ChannelSend_E(s, e)
     [] e.type = "ChannelTake"             -> ChannelTake_E(s, e)
     [] e.type = "ExportImport"            -> ExportImport_E(s, e)
+    [] e.type = "InitRaw"                 -> InitRaw_E(s, e)
 
 Resp(s, e) ==
   CASE e.type = "Query"                   -> Query_R(s, e)
@@ -414,6 +422,7 @@ Resp(s, e) ==
     [] e.type = "AdvanceBlock"            -> AdvanceBlock_R(s, e)
     [] e.type \in {"ChannelOpen", "ChannelSend", "ChannelTake"} -> ChanR(s, e)
     [] e.type = "ExportImport"            -> ExportImport_R(s, e)
+    [] e.type = "InitRaw"                 -> InitRaw_R(s, e)
 
 (* Step: the deterministic transition function.  A failed message leaves    *)
 (* the state unchanged (message-level atomicity of baseapp).                *)
